@@ -80,7 +80,7 @@ PROPS = {
                 pending=['lambda-scope writes never reach an outer binding of the same name: heap-level frame lemma for writeTop over whole runs (one-transition lemma writes_go_to_top proved; scope_balanced proved over all runs)']),
     'C11': dict(obligations=lambda: P('SqProps.C11') + SHAPE_RESETS,
                 slices=['session'], monitors=['c11'],
-                pending=['eval_indep_partial lifted to histories with evals (closure-free names)']),
+                pending=['histories that contain earlier EVALS: independent up to the D9 finding (a stored lambda charges its creator VM); proved for histories of parse / list_names calls of any outcome, and for cached parsers via C17.cache_transparent']),
     'C12': dict(obligations=lambda: P('SqProps.C12'),
                 slices=['alias'], monitors=['c12'],
                 pending=['deepcopy_iso (the copy has the same aliasing-aware canonical form as the original); independence of the copy (copy_reaches_only_new_objects, stored_copy_is_independent) is proved']),
@@ -98,7 +98,7 @@ PROPS = {
                 pending=[]),
     'C17': dict(obligations=lambda: P('SqProps.C17'),
                 slices=['session_cache'], monitors=['c17'],
-                pending=['cache_transparent lifted to whole call sequences incl. eval (simulation)']),
+                pending=['host mutation of earlier results between calls (the trees are immutable values in the model, so it cannot alter them; the implementation side is covered by the session_cache slice and the c17 monitor)']),
     'C18': dict(obligations=lambda: P('SqProps.C18') + TIE_LEX + TIE_TOK,
                 slices=['names', 'session_cache', 'name_lookup'], monitors=['c18'],
                 pending=['machine-level closure: every lookupName call of a whole run asks for a name Mentions-ed by the tree or by an ast_names tree (one-step lemmas proved)']),
